@@ -20,6 +20,7 @@ EXPLANATION = (
     "valid_infix and precedence agree; (PARENS) a parenthesised expression resolves to its content (no node is left)."
     " (SETS all-have-a-level) every token that can continue an expression (`(`, `[`, `.`, `'`, `->`, the operators) has a precedence level."
     ' (ARROW rhs-level, shared with C14) the call after `->` ends before any binary operator.'
+    ' (PARENS parser form tests, PIPE emission, GRAMMAR self-delimiting - shared) the climbing loop decides by the next token alone and every operator is emitted with its own parentheses.'
 )
 UNDECIDED = "`evaluates to the same value` beyond what the operator pipeline (C01) gives."
 
